@@ -38,3 +38,22 @@ fn f09a_keyword_field() {
     assert!(!code.contains("pub match:"), "{}", code);
     assert!(code.contains("match_"), "{}", code);
 }
+
+#[test]
+fn f14a_self_import_is_a_resolve_error() {
+    let m = Model::try_from(Tokenizer::default().parse("A DEFINITIONS ::= BEGIN IMPORTS x FROM A; T ::= INTEGER (0..x) END")).unwrap();
+    let r = std::thread::Builder::new().stack_size(64 * 1024 * 1024).spawn(move || m.try_resolve().is_err()).unwrap().join();
+    assert_eq!(r.ok(), Some(true));
+}
+
+#[test]
+fn f14b_cyclic_type_alias_terminates() {
+    let r = std::thread::Builder::new().stack_size(64 * 1024 * 1024).spawn(move || {
+        let m = Model::try_from(Tokenizer::default().parse("M DEFINITIONS ::= BEGIN A ::= B B ::= A END")).unwrap();
+        match m.try_resolve() {
+            Ok(m) => { let _ = m.to_rust(); true }
+            Err(_) => true,
+        }
+    }).unwrap().join();
+    assert_eq!(r.ok(), Some(true));
+}
